@@ -17,6 +17,12 @@ def groups(n, seed):
         if i % 2:
             rs["y0scale"] = float(10.0 ** rng.integers(-8, 9))
         gs.append({"tag": "C16", "runs": [rs]})
+    # several multipliers of equal magnitude (2-norm well above the inf-norm) x initial rho swept over decades:
+    # the dual-norm bound is tight here
+    for i in range(max(24, n // 3)):
+        pk = dict(penalty_update=gen.PENS[1], rho=float(10.0 ** rng.uniform(-7, 0)), iteration_limit=60, display_interval=1e9,
+                  step_control_type=gen.CTLS[i % 4])
+        gs.append({"tag": "C16.equalmult", "runs": [{"prob": ("equalmult", int(rng.integers(0, 2 ** 31)), int(rng.integers(3, 8))), "params": pk}]})
     return gs
 
 
@@ -24,5 +30,6 @@ def main():
     chk = Check("C16")
     chk.mc("GF_small.cfg" if chk.thorough else "GF_q_small.cfg")
     chk.tv(groups(900 if chk.thorough else 96, chk.seed), "C16 sweep")
+    chk.replay_behaviours(num=250 if not chk.thorough else 2000)
     return chk.finish(rule="MC over all policies x ynorm levels x filter histories + traced solves with all six policies and "
                            "starting multipliers spanning 1e-8..1e8")
